@@ -488,17 +488,11 @@ def job_stream(pid, ctx, n_random=None):
     if corpus.exists():
         for f in sorted(corpus.glob("*.txt")): scripts = [l for l in f.read_text().splitlines() if l.strip()] + scripts
     (d / "cases.txt").write_text("\n".join(scripts) + "\n")
-    k = 12
-    chunks = [scripts[i::k] for i in range(k)]
-    def run_chunk(ch):
-        p = subprocess.run([str(core.TARGET / "wxjob")], input="\n".join(ch) + "\n", capture_output=True, text=True, timeout=3000)
-        return p.returncode, p.stdout.splitlines(), p.stderr[-500:]
-    with ThreadPoolExecutor(k) as ex: res = list(ex.map(run_chunk, chunks))
-    impl = {}
-    for ch, (rc, lines, err) in zip(chunks, res):
-        if rc != 0 or len(lines) != len(ch):
-            s.error = f"wxjob failed rc={rc} ({len(lines)}/{len(ch)} lines): {err}"; return s
-        for c, l in zip(ch, lines): impl[c] = l
+    impl, culprits, fatal = core.run_chunks("wxjob", scripts, 12, 600 if ctx["thorough"] else 150)
+    if fatal: s.error = fatal; return s
+    for c, why in culprits: s.oracle_failures.append((scripts.index(c), c, "", f"[{pid}] the job task gave no answer on this script: {why}"))
+    scripts = [c for c in scripts if c in impl]
+    (d / "cases.txt").write_text("\n".join(scripts) + "\n")
     (d / "impl.txt").write_text("\n".join(impl[c] for c in scripts) + "\n")
     ok, err = core.run_driver(["job", "all"], d / "cases.txt", d / "model.txt")
     if not ok: s.error = "wxdriver job failed: " + err[-800:]; return s
@@ -644,16 +638,11 @@ def c13_streams(ctx):
     d = core.WORK / ctx.get("pid13", "C13") / "fs-worker"; d.mkdir(parents=True, exist_ok=True)
     scripts = core.corpus("fs-worker") + fs_scripts(ctx["seed"], n)
     (d / "cases.txt").write_text("\n".join(scripts) + "\n")
-    k = 8
-    chunks = [scripts[i::k] for i in range(k)]
-    def run_chunk(ch):
-        p = subprocess.run([str(core.TARGET / "wxfs")], input="\n".join(ch) + "\n", capture_output=True, text=True, timeout=3000)
-        return p.returncode, p.stdout.splitlines(), p.stderr[-500:]
-    with ThreadPoolExecutor(k) as ex: res = list(ex.map(run_chunk, chunks))
-    impl = {}
-    for ch, (rc, lines, err) in zip(chunks, res):
-        if rc != 0 or len(lines) != len(ch): s.error = f"wxfs failed rc={rc} ({len(lines)}/{len(ch)}): {err}"; return [s]
-        for c, l in zip(ch, lines): impl[c] = l
+    impl, culprits, fatal = core.run_chunks("wxfs", scripts, 8, 600 if ctx["thorough"] else 150)
+    if fatal: s.error = fatal; return [s]
+    for c, why in culprits: s.oracle_failures.append((scripts.index(c), c, "", f"the fs worker gave no answer on this script (deadlock while reconfiguring?): {why}"))
+    scripts = [c for c in scripts if c in impl]
+    (d / "cases.txt").write_text("\n".join(scripts) + "\n")
     conf = {c: impl[c].split("\tCFG=")[1] for c in scripts}
     impl = {c: impl[c].split("\tCFG=")[0] for c in scripts}
     (d / "impl.txt").write_text("\n".join(impl[c] for c in scripts) + "\n")
@@ -707,9 +696,11 @@ def c15_streams(ctx):
     for i in range(240 if ctx["thorough"] else 120):
         behs = r.choice(["irsic", "iic", "sc", "isse", "ic", "se", "iisc", "rsie"])
         cases.append(f"x{i} 1 {behs} " + ",".join(f"v{j}:e" for j in range(r.randint(7, 10))))
-    p = subprocess.run([str(core.TARGET / "wxerr")], input="\n".join(cases) + "\n", capture_output=True, text=True, timeout=3000)
-    outs = p.stdout.splitlines()
-    if p.returncode != 0 or len(outs) != len(cases): s.error = f"wxerr failed rc={p.returncode}: {p.stderr[-600:]}"; return [s]
+    impl, culprits, fatal = core.run_chunks("wxerr", cases, 1, 1500 if ctx["thorough"] else 400)
+    if fatal: s.error = fatal; return [s]
+    hung = [(cases.index(c), c, "", f"Watchexec gave no answer on this fault script (stopped processing?): {why}") for c, why in culprits]
+    cases = [c for c in cases if c in impl]
+    outs = [impl[c] for c in cases]
     lines = []
     parsed = []
     for c, o in zip(cases, outs):
@@ -727,6 +718,7 @@ def c15_streams(ctx):
     if not ok: s.error = "wxdriver err failed: " + err[-600:]; return [s]
     model = core.read_lines(d / "model.txt")
     s.evaluations = len(cases)
+    s.oracle_failures += hung
     for i, ((c, o, f, handled, names, errs, passes), mo) in enumerate(zip(parsed, model)):
         im = f"handled={f['handled']} main={f['main']}"
         if im != mo: s.disagreements.append((i, c, o, mo))
@@ -996,16 +988,11 @@ def c08_streams(ctx):
     d = core.WORK / "C08" / "quit-sim"; d.mkdir(parents=True, exist_ok=True)
     cases = core.corpus("quit-sim") + quit_cases(ctx["seed"], n)
     (d / "cases.txt").write_text("\n".join(cases) + "\n")
-    k = 12
-    chunks = [cases[i::k] for i in range(k)]
-    def run_chunk(ch):
-        p = subprocess.run([str(core.TARGET / "wxquit")], input="\n".join(ch) + "\n", capture_output=True, text=True, timeout=3000)
-        return p.returncode, p.stdout.splitlines(), p.stderr[-500:]
-    with ThreadPoolExecutor(k) as ex: res = list(ex.map(run_chunk, chunks))
-    impl = {}
-    for ch, (rc, lines, err) in zip(chunks, res):
-        if rc != 0 or len(lines) != len(ch): s.error = f"wxquit failed rc={rc} ({len(lines)}/{len(ch)}): {err}"; return [s]
-        for c, l in zip(ch, lines): impl[c] = l
+    impl, culprits, fatal = core.run_chunks("wxquit", cases, 12, 600 if ctx["thorough"] else 150)
+    if fatal: s.error = fatal; return [s]
+    for c, why in culprits: s.oracle_failures.append((cases.index(c), c, "", f"the quit did not terminate (or the instance crashed): {why}"))
+    cases = [c for c in cases if c in impl]
+    (d / "cases.txt").write_text("\n".join(cases) + "\n")
     (d / "impl.txt").write_text("\n".join(impl[c] for c in cases) + "\n")
     # the model: every job is one run of the job-task model — its own script, then at the quit instant the controls the worker sends
     # (stop_with_signal then delete: GracefulStop, then Stop + Delete, all normal priority), or nothing more for an abort
@@ -1304,16 +1291,11 @@ def c05_streams(ctx, name="cli-action", pid="C05", gen=None, oracle=None):
     d = core.WORK / pid / name; d.mkdir(parents=True, exist_ok=True)
     cases = core.corpus(name) + gen(ctx["seed"], n)
     (d / "cases.txt").write_text("\n".join(cases) + "\n")
-    k = 12
-    chunks = [cases[i::k] for i in range(k)]
-    def run_chunk(ch):
-        p = subprocess.run([str(core.TARGET / "wxcliaction")], input="\n".join(ch) + "\n", capture_output=True, text=True, timeout=3000, cwd=str(d))
-        return p.returncode, p.stdout.splitlines(), p.stderr[-500:]
-    with ThreadPoolExecutor(k) as ex: res = list(ex.map(run_chunk, chunks))
-    impl = {}
-    for ch, (rc, lines, err) in zip(chunks, res):
-        if rc != 0 or len(lines) != len(ch): s.error = f"wxcliaction failed rc={rc} ({len(lines)}/{len(ch)}): {err}"; return [s]
-        for c, l in zip(ch, lines): impl[c] = l
+    impl, culprits, fatal = core.run_chunks("wxcliaction", cases, 12, 600 if ctx["thorough"] else 150, cwd=str(d))
+    if fatal: s.error = fatal; return [s]
+    for c, why in culprits: s.oracle_failures.append((cases.index(c), c, "", f"the CLI's action handler / job gave no answer on this script: {why}"))
+    cases = [c for c in cases if c in impl]
+    (d / "cases.txt").write_text("\n".join(cases) + "\n")
     (d / "impl.txt").write_text("\n".join(impl[c] for c in cases) + "\n")
     ok, err = core.run_driver(["cli"], d / "cases.txt", d / "model.txt")
     if not ok: s.error = "wxdriver cli failed: " + err[-600:]; return [s]
